@@ -185,6 +185,8 @@ func cmdCheck(args []string) int {
 	vac := map[string]string{}
 	kindCount := map[string]int{}
 	exit := 0
+	var curObl *Obl
+	var curRes *FnResult
 	report := func(obl string, fn string, why string, detail string, model string, script string) {
 		os.MkdirAll(replayDir, 0o755)
 		path := filepath.Join(replayDir, shortName(obl, 100)+".json")
@@ -197,7 +199,12 @@ func cmdCheck(args []string) int {
 				rp["smt_script"] = sp
 			}
 		}
-		rep := replayCounterexample(P, id, obl, fn, model, rp)
+		rep := false
+		if curObl != nil && curRes != nil && curObl.Name == obl {
+			rep = replayObligation(P, curRes, curObl, rp, filepath.Join(opts.workdir, "replay-"+shortName(obl, 60)))
+		} else {
+			rp["replay"] = "not attempted: no single call exhibits this report"
+		}
 		data, _ := json.MarshalIndent(rp, "", " ")
 		os.WriteFile(path, data, 0o644)
 		line := fmt.Sprintf("VIOLATION property=%s replay=%s obligation=%q", id, path, obl)
@@ -261,7 +268,9 @@ func cmdCheck(args []string) int {
 				}
 			} else {
 				exit = 1
+				curObl, curRes = o, r
 				report(o.Name, r.Key, "obligation not discharged ("+o.Status+") at "+P.posString(o.Pos), o.Detail, o.Model, o.Script)
+				curObl, curRes = nil, nil
 			}
 		}
 	}
@@ -356,12 +365,6 @@ func cmdCheck(args []string) int {
 	fmt.Printf("%s %s: %d/%d obligations discharged over %d functions, %d known findings, %d violations, %.1fs\n",
 		id, *tier, nproved, total, len(results), len(kfPrinted), len(violations), time.Since(t0).Seconds())
 	return exit
-}
-
-// replayCounterexample tries to confirm a failed obligation on the real code.
-// Returns true if a concrete failing input was reproduced.
-func replayCounterexample(P *Program, id, obl, fn, model string, rp map[string]any) bool {
-	return false
 }
 
 // runOverlayTest runs one Go test file against /repo without writing into it.
